@@ -7,11 +7,111 @@ S→I  every program of <= MaxTok tokens over the escape alphabet (variables, li
      not-safe twin filters, index, attribute, set-blocks, filter sections, loops over strings and maps, includes,
      set of safe values) under autoescape on (suffix match) / off (no match), through render and render_str(.., flag);
      oracle = the exact text of Run: entities once, twice, or never.
+S→I  taint sweep: 70 routes (assignments, captures, loops, literals, operators, 25 filters, includes, blocks / super /
+     single blocks, component arguments / bodies / nesting, the API entry points) x 7 value kinds carrying all four
+     special characters (string, bytes, nested arrays and maps) x every way of turning autoescaping on or off (suffix,
+     render_str flag, render_component flag against the suffix rule): on => none of the four characters in the output,
+     off => no entity in the output.
 I→S  every render is traced: TLC rejects the first sink whose escape decision differs from `autoescape and not safe`
      (SinkRule), the first Safe string minted outside the allowed points (MintRule), and the first frame whose
      autoescape flag differs from the configured one (AutoescapeAsConfigured)."""
 import json
 import vp, render_check
+
+# ---- taint sweep: the corollary of the statement ("with the default escaper and no use of `safe`, the output contains no
+# < > " ' except those written literally in template text") on routes and value kinds outside the alphabet of MC_Render.
+# All template text below is free of the four characters; every value carries all of them.
+SP = "<'\">"
+TAINTED = [("string", SP), ("bytes", {"$bytes": list(SP.encode())}), ("array", [SP, [SP]]), ("map", {SP: SP, "k": SP, "n": {"x": SP}}),
+           ("mixed", [{"k": SP}, {"$bytes": list(SP.encode())}, 1]), ("int", 7), ("none", None)]
+ROUTES = [
+    "{{ v }}", "{% set x = v %}{{ x }}", "{% set x %}{{ v }}{% endset %}{{ x }}", "{% set_global x = v %}{{ x }}",
+    "{% filter upper %}{{ v }}{% endfilter %}", "{% filter trim %}a{{ v }}{% endfilter %}",
+    "{% for i in [v] %}{{ i }}{% endfor %}", "{% for i in v %}{{ i }}{% endfor %}", "{% for k, x in v %}{{ k }}{{ x }}{% endfor %}",
+    "{{ [v] }}", "{{ [v, [v]] }}", "{{ {'k': v} }}", "{% set m = {'k': v} %}{{ m.k }}", "{% set m = {'k': v} %}{{ m['k'] }}", "{{ [v][0] }}", "{{ [v][-1] }}",
+    "{{ v ~ 'a' }}", "{{ 'a' ~ v }}", "{{ v ~ v }}", "{{ v | default(value='d') }}", "{{ nothere | default(value=v) }}",
+    "{{ v if true else 'a' }}", "{{ 'a' if false else v }}", "{{ v or 'a' }}", "{{ false or v }}", "{{ true and v }}",
+    "{{ v[0] }}", "{{ v[0:2] }}", "{{ v[::-1] }}", "{{ v.k }}", "{{ v?.k }}", "{{ v.n.x }}", "{{ v['k'] }}",
+    "{{ v | upper }}", "{{ v | lower }}", "{{ v | trim }}", "{{ v | capitalize }}", "{{ v | title }}", "{{ v | reverse }}", "{{ v | first }}",
+    "{{ v | last }}", "{{ v | str }}", "{{ v | join(sep=', ') }}", "{{ ['a', 'b'] | join(sep=v) }}", "{{ 'aba' | replace(from='b', to=v) }}",
+    "{{ v | truncate(length=2) }}", "{{ v | truncate(length=1, end=v) }}", "{{ v | split(pat='&') }}", "{{ v | keys }}", "{{ v | values }}",
+    "{{ v | pairs }}", "{{ v | get(key='k') }}", "{{ v | get(key='zz', default=v) }}", "{{ v | unique }}", "{{ v | sort }}", "{{ v | nth(n=0) }}",
+    "{{ v | indent }}", "{{ v | length }}", "{{ __tera_context }}", "{% include 'inc' %}", "{% set x = v %}{% include 'incx' %}",
+    "{{<c p={v} />}}", "{{<c p={[v]} />}}", "{% set o = {'p': v} %}{{<c {...o} />}}", "{% <c p='a'> %}{{ v }}{% </c> %}", "{% <c p={v}> %}{{ v }}{% </c> %}",
+    "{{<outer p={v} />}}", "{% <outer p={v}> %}{{ v }}{% </outer> %}",
+    "{% for i in [1, 2] %}{% set x %}{{ v }}{% endset %}{{ x }}{% endfor %}", "{% if v %}{{ v }}{% endif %}",
+]
+LIB = [["inc", "I{{ v }}"], ["incx", "I{{ x }}"],
+       ["comps", "{% component c(p) %}C{{ p }}{% if body is defined %}{{ body }}{% endif %}{% endcomponent c %}"
+                 "{% component outer(p) %}O{{<c p={p} />}}{% <c p={p}> %}{{ p }}{% if body is defined %}{{ body }}{% endif %}{% </c> %}{% endcomponent outer %}"],
+       ["base", "B{% block a %}P{{ v }}{% endblock %}{% block b %}{% endblock %}"],
+       ["child", "{% extends 'base' %}{% block a %}K{{ super() }}{{ v }}{% endblock %}{% block b %}{% filter upper %}{% block n %}N{{ v }}{% endblock %}{% endfilter %}{% endblock %}"]]
+ENTITIES = ("&lt;", "&gt;", "&quot;", "&#39;", "&#x27;", "&amp;")
+
+
+def sweep(C, tier):
+    """Every route x value kind, with autoescaping on through each way of turning it on (name suffix, render_str flag,
+    render_component flag against the suffix rule) and off through each way of turning it off; all renders traced."""
+    jobs, meta = [], []
+    def lib(sfx):
+        out = []
+        for n, src in LIB:
+            for m in ("inc", "incx", "base"):
+                src = src.replace("'%s'" % m, "'%s%s'" % (m, sfx))
+            out.append([n + sfx, src])
+        return out
+    for ri, route in enumerate(ROUTES):
+        for kind, val in TAINTED:
+            for mode in ("suffix-on", "str-on", "suffix-off", "str-off"):
+                on = mode.endswith("on")
+                sfx = ".html" if on else ".txt"      # every template taking part shares the mode
+                src = route
+                for m in ("inc", "incx"):
+                    src = src.replace("'%s'" % m, "'%s%s'" % (m, sfx))
+                steps = [{"op": "add", "tpls": lib(sfx) + [["t" + sfx, src]]}]
+                if mode.startswith("suffix"):
+                    steps.append({"op": "render", "name": "t" + sfx, "expect_ae": on})
+                else:
+                    steps.append({"op": "render_str", "src": src, "auto": on, "expect_ae": on})
+                jobs.append({"cfg": {"autoescape": [".html"]}, "ctx": {"v": val}, "steps": steps})
+                meta.append((route, kind, mode, on))
+    # inheritance / single blocks / components through the API, flag against the suffix rule in both directions
+    for kind, val in TAINTED:
+        for sfx, on_suffix in ((".html", True), (".txt", False)):
+            for flag in (True, False):
+                steps = [{"op": "add", "tpls": lib(sfx)},
+                         {"op": "render", "name": "child" + sfx, "expect_ae": on_suffix},
+                         {"op": "render_block", "name": "child" + sfx, "block": "a", "expect_ae": on_suffix},
+                         {"op": "render_block", "name": "child" + sfx, "block": "n", "expect_ae": on_suffix},
+                         {"op": "render_component", "name": "c", "auto": flag, "expect_ae": flag},
+                         {"op": "render_component", "name": "outer", "auto": flag, "body": "b", "expect_ae": flag}]
+                jobs.append({"cfg": {"autoescape": [".html"]}, "ctx": {"v": val, "p": val}, "steps": steps})
+                meta.append(("inheritance+api", kind, "suffix%s flag=%s" % (sfx, flag), None))
+    res = vp.traced(jobs, C, "c01-sweep", timeout=1800)
+    for (route, kind, mode, on), rr, job in zip(meta, res, jobs):
+        for k, x in enumerate(rr[1:], 1):
+            C.count()
+            st = job["steps"][k]
+            eff = on if on is not None else st["expect_ae"]
+            key = {"kind": "sweep", "route": route, "value": kind, "mode": mode, "op": st["op"]}
+            if x.get("panic") or x.get("abort"):
+                C.violation(dict(key, kind="panic"), "panic rendering %r with a %s value" % (route, kind), {"job": job, "result": x})
+                continue
+            if not rr[0].get("ok"):
+                C.violation(dict(key, kind="setup"), "sweep template refused: %r: %s" % (route, (rr[0].get("msg") or rr[0].get("disp", ""))[:200]), {"job": job})
+                break
+            if not x.get("ok"):
+                continue                      # an error value writes nothing
+            C.nontrivial([route, kind, mode, k])
+            out = x.get("out", "")
+            if eff and any(ch in out for ch in SP):
+                C.violation(key, "autoescape on (%s, %s): %r with a %s value writes %r" % (mode, st["op"], route if on is not None else st.get("name"), kind, out), {"job": job, "step": k, "out": out})
+            if not eff and any(e in out for e in ENTITIES):
+                C.violation(dict(key, kind="sweep-off"), "autoescape off (%s, %s): %r with a %s value went through the escaper: %r" % (mode, st["op"], route if on is not None else st.get("name"), kind, out),
+                            {"job": job, "step": k, "out": out})
+    C.sample({"sweep_route": ROUTES[3], "value_kind": "bytes", "oracle": "no < > \" ' in the output when autoescaping is on; no entity when it is off"})
+    return len(jobs)
+
 
 
 def run(tier):
@@ -21,6 +121,7 @@ def run(tier):
     n = render_check.run_theme(C, "escape", 3 if tier == "quick" else 4, traced=True, also_str=True)
     if tier == "thorough":
         n += render_check.run_theme(C, "escape", 8, traced=True, simulate=4000, depth=12, workers=1, tag="render-sim-escape", also_str=True)
+    C.cov["sweep_renders"] = sweep(C, tier)
     C.cov["programs"] = n
     C.cov["exhaustive"] = True
     C.assumptions += ["user contexts contain no pre-made safe strings", "all templates taking part in a render share the autoescape mode (suffix)",
